@@ -42,6 +42,12 @@ def decStr (w : String) : Option Str :=
       | _, _ => none) (some [])
   else none
 
+def parseNatList (w : String) : Option (List Nat) :=
+  if w == "-" then some [] else
+  (w.splitOn ",").foldr (fun part acc => match acc, part.toNat? with
+    | some l, some n => some (n :: l)
+    | _, _ => none) (some [])
+
 def words (line : String) : List String :=
   (line.splitOn " ").filter (fun w => !w.isEmpty)
 
